@@ -239,6 +239,7 @@ static uint32_t g_blk_n[VF_NBLK];  // bytes
 static uint8_t g_abad;
 static uint8_t g_alloc_calls;    // allocate + reallocate calls (requests for memory)
 static uint8_t g_dealloc_calls;
+static uint32_t g_released_bytes;   // bytes of blocks given up (deallocate / old block of reallocate): bound on relocation work (C18)
 
 static inline void abad(uint8_t c) {
   if (g_abad == 0) g_abad = c;
@@ -275,6 +276,7 @@ static inline void ledger_free(void *p, size_t bytes) {
     return;
   }
   if (g_blk_n[k] != bytes) abad(ABAD_FREE_SIZE);
+  g_released_bytes += g_blk_n[k];
   g_blk_p[k] = nullptr;
   vf_free_(static_cast<uint8_t *>(p));
 }
@@ -291,6 +293,7 @@ static inline void *ledger_realloc(void *p, size_t oldBytes, size_t newBytes) {
     return vf_malloc(newBytes);
   }
   if (g_blk_n[k] != oldBytes) abad(ABAD_REALLOC_OLD);
+  g_released_bytes += g_blk_n[k];
   uint8_t *q = vf_realloc_(static_cast<uint8_t *>(p), newBytes);
   g_blk_p[k] = q;
   g_blk_n[k] = static_cast<uint32_t>(newBytes);
